@@ -86,7 +86,7 @@ def run(ctx):
                        'one extractor per file, one location per package: the cache key (location, layer index) then determines the extraction result',
                        'filesystem.Run inside the trace fails only through the context (ErrorOnFSErrors and MaxInodes do not reach it): cancellation is modelled as "after k re-extractions"; extraction is a function of the file content; an Extract error does not drop the packages it returned',
                        'package identity = (purl, Locations[0]); the fake extractor emits purls pkg:generic/<name>@<version>, names are shared between versions']
-    ctx.rule = ('case = history of 1..6 entries (E empty layer | layer with one op per file: k keep, d whiteout, w<digits> rewrite with these packages (a digit is a (name, version) pair; digits d and d+4 are the SAME name at versions 1 and 2, so files hold one name at two versions, versions get bumped, and the same name@version sits at several locations), s<digits> replace the location by a symlink to such a list, a<n>/r<n> delete by whiteout / replace by a regular file the directory n levels above the file — files sit up to three directories deep and share no ancestor, because a deleted directory re-created for a SIBLING is the known C04 finding C04/recreate-after-whiteout), 1..3 files, history mode H/N/S/G (full; none, last entry dropped, one entry too many: the last three usually take the fallback of initializeChainLayers, where the specification (Spec.specChain) says one chain layer per v1 layer, Index = the ordinal of the layer, no command), optionally the context cancelled after k re-extractions of the trace; '
+    ctx.rule = ('case = history of 1..6 entries (E empty layer | layer with one op per file: k keep, d whiteout, w<digits> rewrite with these packages (a digit is a (name, version) pair; digits d and d+4 are the SAME name at versions 1 and 2, so files hold one name at two versions, versions get bumped, and the same name@version sits at several locations), s<digits> replace the location by a symlink to such a list, a<n>/r<n> delete by whiteout / replace by a regular file the directory n levels above the file — files sit up to three directories deep and share no ancestor, because a deleted directory re-created for a SIBLING is the known C04 finding C04/recreate-after-whiteout), 1..3 files, history mode H/N/S/G (full; none, last entry dropped, one entry too many: the last three usually take the fallback of initializeChainLayers, where the specification (Spec.specChain) says one chain layer per v1 layer, Index = the ordinal of the layer, no command), optionally the context cancelled after k re-extractions of the trace (c0: by a detector, before the trace starts); a fifth of the cases lets something fail AFTER the successful extraction of the final view (a detector reporting inconsistent advisories / a finding without advisory / an error, a failing standalone extractor): the scan is then marked failed or partly failed but keeps its inventory, and the attribution must be exactly the same; '
                 'thorough adds every history of <=4 entries over one file with packages p1@1, p1@2, p2@1 (15 ops per entry, ancestor deletions at every level included; histories of 3-4 entries also cancelled after the first re-extraction). non-trivial = more than two chain layers and a non-empty final inventory; '
                 'distinct = distinct case lines. oracle: every reported package must carry Index = least L with the package in every view L..last (computed by the Lean driver from the case), '
                 'the DiffID of that chain layer\'s v1 layer and its CreatedBy; a package without LayerDetails is accepted only when the context was cancelled')
@@ -107,7 +107,7 @@ def run(ctx):
         got = [] if fi['pk'] == '-' else fi['pk'].split(',')
         # the standalone extractor's package is reported but cannot be traced: it must carry no LayerDetails
         sa = [t for t in got if t.startswith('sa@')]
-        if sa != ['sa@nil']:
+        if sa != ([] if 's' in case.split(' ')[1][1:] else ['sa@nil']):
             return 'the package of the standalone extractor is reported as %s; it must be present and carry no LayerDetails' % (sa or 'missing')
         got = [t for t in got if not t.startswith('sa@')]
         want = dict(t.split('@') for t in ([] if fm['spec'] == '-' else fm['spec'].split(',')))
